@@ -56,6 +56,9 @@ def demoComp (K : Keys) : Comp Unit (List Move) where
   hashFull := fun _ => 0
   nextGen := fun _ => ()
 
+/-- `demoComp` has no persistent state: the invariant is trivial. -/
+instance : PsInv Unit := ⟨fun _ => True⟩
+
 /-- the list picker: what is left plus what was yielded covers the generated moves, and what is left
     is generated. -/
 theorem demo_reach (K : Keys) (b : Board) (hm : Move) (p : List Move) (ys : List Move)
@@ -63,7 +66,7 @@ theorem demo_reach (K : Keys) (b : Board) (hm : Move) (p : List Move) (ys : List
     (∀ m, m ∈ p → m ∈ MoveGen.gen b) ∧ (∀ m, m ∈ MoveGen.gen b → m ∈ p ∨ m ∈ ys) := by
   induction h with
   | init => exact ⟨fun _ h => h, fun _ h => Or.inl h⟩
-  | next hr hp ih =>
+  | next hr hok hp ih =>
     rename_i p0 ys0 ps hs m p'
     cases p0 with
     | nil => simp [demoComp] at hp
@@ -109,13 +112,16 @@ theorem demo_q_mem (K : Keys) (b : Board) (ps : Unit) (hs : List StackMove) (m :
 
 theorem demo_laws (K : Keys) : Laws (demoComp K) NoMen where
   undo_make := fun b m hg hm => by rw [gen_noMen hg] at hm; cases hm
-  good_make := fun b m hg hm => by rw [gen_noMen hg] at hm; cases hm
+  good_make := fun b m hg _ hm => by rw [gen_noMen hg] at hm; cases hm
   undo_null := fun b hg _ => Board.undoNull_makeNull' K b (by rw [hg.2.2.2]; decide)
   good_null := fun b hg _ => noMen_null K hg
-  pick_mem := fun ps b hs hm p ys m p' _ hr hp => demo_pick_mem K b hm p ys ps hs m p' hr hp
-  pick_complete := fun ps b hs hm p ys _ hr hp => demo_pick_complete K b hm p ys ps hs hr hp
+  pick_mem := fun ps b hs hm p ys m p' _ _ hr _ hp => demo_pick_mem K b hm p ys ps hs m p' hr hp
+  pick_complete := fun ps b hs hm p ys _ _ hr _ hp => demo_pick_complete K b hm p ys ps hs hr hp
   q_mem := fun ps b hs m w _ hq => demo_q_mem K b ps hs m w hq
   gen_ne_zero := fun b m hg hm => by rw [gen_noMen hg] at hm; cases hm
+  ok_store := fun _ _ _ _ _ _ _ _ _ _ => trivial
+  ok_failHigh := fun _ _ _ _ _ _ => trivial
+  ok_nextGen := fun _ _ => trivial
 
 theorem noMen_empty : NoMen Board.empty := ⟨by decide, by decide, by decide, by decide⟩
 
